@@ -224,6 +224,23 @@ mksection .text
         vpxorq          ymm0, ymm0
         shl             WORD(idx), 5 ;; ks stored at 32 byte offsets
         vmovdqa32       [state + _snow3g_ks + idx], ymm0
+
+        ;; last job of the manager handed back: clear what the initialization left behind,
+        ;; the LFSR & FSM state of all lanes and the keystream generated for lanes without a job
+        cmp             qword [state + _snow3g_lanes_in_use], 0
+        jne             %%_lanes_still_in_use_uia2
+        vpxorq          zmm0, zmm0, zmm0
+%assign i 0
+%rep (16 + 3)
+        vmovdqa64       [state + _snow3g_args_LFSR_0 + i*64], zmm0
+%assign i (i + 1)
+%endrep
+%assign i 0
+%rep 8
+        vmovdqu64       [state + _snow3g_ks + i*64], zmm0
+%assign i (i + 1)
+%endrep
+%%_lanes_still_in_use_uia2:
 %endif
 
         jmp     %%return_uia2
